@@ -41,6 +41,12 @@ CHECKS = {
  "C15": ("7/C15", "TLA+ transcription of the helpers (StrOps.tla) evaluated by TLC over star-shaped recordings of the real functions",
          "strings over {a, B, 1, o-umlaut (2 bytes), space, -, _, &, *} up to 4 runes (sampled above length 2 in the quick tier), offsets/lengths/indices/sizes within +-3 of the byte length, 8 tokens incl. the empty one; Substr, Pad*, SplitAtIndex, Wrap/Unwrap (round trip and non-wrapped inputs), WrapAllRune, ReverseStr are exact byte/rune-level definitions; case mapping by an explicit table; Camel/Snake/Kebab by the relational clauses of the statement (letters and digits kept in order, own separator only, lower-case, idempotent, equal up to the delimiter).",
          "Unicode case mapping only for the table in the spec; no coverage-guided fuzzing (other family); padding with an empty token is outside the stated domain"),
+ "C16": ("7/C16", "TLC model check of Frame.tla (frame conditions over buffers) + TLC validation of recorded helper-call chains on sentinel-filled backing arrays",
+         "a state machine over argument backing arrays INCLUDING spare capacity (filled with sentinels), argument views and earlier results; 27 slice helpers (incl. heap.FromSlice/heap.Sort and an aggregate of 18 scalar helpers) and 18 map helpers x 24 slice placements (6 contents x 2 second arguments x spare capacity 0 and 4) / 5 maps x every ordered pair (thorough: triple) of calls sharing the arguments; after every call the buffers, and every earlier result re-read through the same reference, are compared with the frame conditions by TLC (arguments unchanged unless the contract is in-place, then only that argument's first len elements; nothing beyond len ever; an earlier result changes only as a window onto an in-place-edited buffer); aliasing is computed by pointer arithmetic in the driver; FrameMC shows an appending merge violates the conditions.",
+         "strings are immutable in Go, so string helpers cannot disturb anything and are not driven; a write that stores an identical value is not seen; in-place contents are judged in C11-C15"),
+ "C18": ("7/C18", "TLC model check of CallCount.tla + TLC validation of recorded call chains of the real wrappers",
+         "After and Before for n in -2..8 x 12 calls, Once x 8 calls, Retry for n in -2..8 x every success/failure pattern up to length 6 (thorough 8), RetryWithDelay lower bound on wall-clock gaps; the callback counts its own invocations and returns its number, so a callback that ran twice is visible; TLC checks the counting formulas on the model and validates every recorded call.",
+         "Before/Once use a fresh never-expiring cache per sequence; the 'for as long as its cache entry lives' clause is exercised by the expiring-cache property C08, not here; delays are wall-clock lower bounds only"),
  "C19": ("7/C19", "TLC model check of List.tla + TLC validation of tree-shaped recordings of the real lists",
          "TLC checks List!Out against 'never empty' and 'no edit loses, duplicates or reorders the other elements'; every edit sequence (Unshift, Append, Shift, Pop, InsertAfter/InsertBefore/Delete/Replace on every value used so far and an absent one, handles from Find immediately before use) to depth 4 (thorough 5: 2.1 million nodes) on both list types plus seeded long runs that shrink to one element and regrow is executed on the real code with Each (twice, around the Finds), First, Last and Find of every value observed after every call; a panic is a result no outcome allows.",
          "bounded scope plus seeded long runs; distinct inserted values and fresh handles as the property's quantifier states; return values of Shift/Pop are not constrained (the statement does not)"),
